@@ -13,7 +13,7 @@ WIDEN_MAX = 60          # extra thorough-generator cases when the anchored sourc
 PROPS_FILE = ["props/C17.v", "trunc/C17R.v"]
 IMPORTS = "HetBound"
 RULE = ("cases = four links {exp, cosh-1, step, rectified linear} x Dx in 1..2, Dy in 1..2, Da in {Dy, Dy+1}, Dk in 1..2, "
-        "non-zero offsets, weight scales {1, 1e-1, 1e-2, 0}; (a) condition_on_x at 3 points; (b) "
+        "non-zero offsets, weight scales {1, 1e-1, 1e-2, 0}; half of the objects built with another A resp. (M, W) then obj.replace(...); (a) condition_on_x at 3 points; (b) "
         "integrate_log_conditional_y for one observation with one prior component and N observations paired with N prior "
         "components, compared with the true expectation of ln p(y|x) by quadrature (piecewise Gauss-Legendre, Dx=1; "
         "Gauss-Hermite, Dx=2, smooth links); non-trivial = Dx*Dy*Dk > 1 or Da > Dy; distinct = SHA1 of the input")
